@@ -3,6 +3,30 @@ use crate::common::*;
 use crate::rauth::*;
 
 pub fn run(ctx: &mut Ctx) {
+    // the document signer's certificate EXPIRES between two responses of one live reader session (same chain, same registry)
+    {
+        use crate::pki::Pki;
+        use crate::sess::*;
+        let mut rng = ctx.rng.clone();
+        let mut pki = Pki::generate(&mut rng);
+        let other_pki = Pki::generate(&mut rng);
+        let now = std::time::SystemTime::now().duration_since(std::time::UNIX_EPOCH).unwrap().as_secs();
+        if let Some(c) = crate::pki::leaf_cert_valid(&pki.ds_key, &pki.iaca_key, "CN=Test IACA,C=US", "CN=Test DS,C=US", crate::pki::EKU_DS, 92, now - 60, now + 4) { pki.ds = c; }
+        let device_key = p256::ecdsa::SigningKey::random(&mut rng);
+        let mdoc = issue_with_key(&pki, MDL, new_namespaces(&mut rng), isomdl::definitions::DigestAlgorithm::SHA256, false, cose_key_of(&device_key));
+        if let Some(sc) = scene_from(pki, other_pki, mdoc, device_key, isomdl::definitions::DigestAlgorithm::SHA256) {
+            let reg = iaca_registry(&sc.pki);
+            deliver(ctx, "issuer_auth_before_expiry", "c03.spec", &sc, &sc.rdr, &reg, "right-root", &Alt::None, &sc.plaintext, None);
+            match warmed_reader(&sc, &sc.rdr) {
+                Some(warm) => {
+                    std::thread::sleep(std::time::Duration::from_secs(5));
+                    deliver(ctx, "issuer_auth_after_expiry", "c03.spec", &sc, &warm, &reg, "right-root", &Alt::None, &sc.plaintext, None);
+                }
+                None => ctx.count("across_expiry:first-response-not-valid"),
+            }
+        }
+        ctx.rng = rng;
+    }
     let scenes = ctx.budget(3, 60);
     for _ in 0..scenes {
         let mut rng = ctx.rng.clone();
